@@ -21,10 +21,23 @@ CLAIMED = {
         "quick_timeout": 900,
         "thorough_timeout": 14400,
     },
+    "C10": {
+        "engine": "grid-history",
+        "category": "exploration",
+        "technique": "deterministic simulation: seeded search over histories of queries, points/weights reassignments, rejected calls and selections on live grid objects, checked step by step against a brute-force reference model",
+        "text": "Seeded search over operation histories on live grid objects of 11 kinds (plain 1-3D, 1-D with domain, Gauss rule, atomic, molecular, uniform, tensor, "
+        "periodic, nested local grids): every local grid is checked against brute-force distances on the grid's current public points/weights, every "
+        "selection against NumPy indexing of the same. The state under test is the lazily built, reused neighbour tree; which bug shows depends on the "
+        "order query/reassign/failed call/query, so the deciding step is a search over sequences with minimised replayable counterexamples. Sampling, not proof.",
+        "design_ref": "DESIGN.md section 3 (C10)",
+        "note": "Trusts NumPy and brute-force distance arithmetic; boundary ties within 1e-9*max(1,r) of the radius are don't-care (except exact zero distance); "
+        "the input space of centres/radii/index kinds is only covered as far as the histories generate it.",
+        "quick_timeout": 900,
+        "thorough_timeout": 14400,
+    },
 }
 
 PLANNED = {
-    "C10": "claimed in DESIGN.md (grid-history engine); check not built yet in this commit",
     "C20": "claimed in DESIGN.md (caller-env engine); check not built yet in this commit",
     "C15": "claimed narrowly in DESIGN.md (rng-seam engine); check not built yet in this commit",
     "C16": "claimed narrowly in DESIGN.md (rng-seam engine); check not built yet in this commit",
@@ -80,6 +93,7 @@ def main():
         },
         "engines": [
             {"name": "cache-history", "path": "engines/cache_history.py", "serves_properties": ["C19"], "kind_free_text": "deterministic simulation of call histories + store faults + scheduled caller threads"},
+            {"name": "grid-history", "path": "engines/grid_history.py", "serves_properties": ["C10"], "kind_free_text": "deterministic simulation of query/reassignment/selection histories on live grid objects"},
         ],
         "checks": [check_entry(pid, CLAIMED[pid]) for pid in sorted(CLAIMED)],
         "not_applicable": [{"property_id": k, "reason": na[k]} for k in sorted(na)],
